@@ -143,6 +143,39 @@ func runSelfTest(verif string) int {
 	splitCase("splitIndexGood", false)
 	splitCase("splitIndexGood2", false)
 	splitCase("splitIndexWeak", true) // the test does not imply the bound
+	// --- E-CLEANUP, data-as-format, never-released lock (rules that report through a Ctx) ---
+	violations := func(run func(c *Ctx)) (nViol, nOK int) {
+		cx := newCtx(p, "SELF", "quick")
+		run(cx)
+		for _, o := range cx.obls {
+			switch o.st {
+			case Violation:
+				nViol++
+			case OK:
+				nOK++
+			}
+		}
+		return
+	}
+	if f := need("cleanupBad"); f != nil {
+		v, _ := violations(func(c *Ctx) { c.checkCleanupOnErrorPaths("r", []*ssa.Function{f}) })
+		expect("E-CLEANUP cleanupBad: a later failure return leaks what an earlier one closes", v == 1, true)
+	}
+	if f := need("cleanupGood"); f != nil {
+		v, ok := violations(func(c *Ctx) { c.checkCleanupOnErrorPaths("r", []*ssa.Function{f}) })
+		expect("E-CLEANUP cleanupGood: silent, with the obligation evaluated", v == 0 && ok == 1, true)
+	}
+	if f := need("formatBad"); f != nil {
+		v, _ := violations(func(c *Ctx) { c.checkNoDataAsFormat("r", []*ssa.Function{f}) })
+		expect("E-PROV formatBad: a parameter used as format string", v == 1, true)
+	}
+	if f := need("formatGood"); f != nil {
+		v, _ := violations(func(c *Ctx) { c.checkNoDataAsFormat("r", []*ssa.Function{f}) })
+		expect("E-PROV formatGood: constant format", v == 0, true)
+	}
+	if f := need("lockLeakLoop"); f != nil {
+		expect("E-LOCK lockLeakLoop: a helper's lock is taken again by the next iteration", p.Locks().leakPath(f) != "", true)
+	}
 	// --- path-sensitive search: repeated test of one condition ---
 	if f := need("twiceTested"); f != nil {
 		var a, b ssa.Instruction
